@@ -113,6 +113,7 @@ def c08(ck):
     mc = core.mc_or_die("ModuleList", "MC_ModuleList", workers=8, coverage=True, timeout=1500)
     util.vacuity(ck, mc, "ModuleList", ["Write", "Modules", "Listed"])
     ck.add_mc(mc, "module list for every list of <= 2 mappings (named, offset, executable, size, contained in a caller mapping, id in {none, zero, a, b}, SONAME), entry point positions, caller mappings; invariants ExactlyTheListed, EntryFirst, UserLast")
+    util.mc_design(ck, "UserContain", "MC_UserContain", "is_contained_in's loop over <= 2 caller mappings (every pair of ranges over 5 addresses, ends coinciding or not, either order) against 'some mapping of the list contains it'; liveness", workers=4)
     scns = _scenarios(quick, ck.seed, ck.work) + dumps.cross_scenarios(quick, ck.seed)
     runs = dumps.run_scenarios(ck, scns, "c08")
     evs = [_event(r, d) for r in runs for d in r["dumps"]]
